@@ -198,6 +198,12 @@ pub fn run_map(ctx: &Ctx, dir: &std::path::Path, c: &Case, m: &Mat, vcf: bool) -
         args.push("-f".into());
         args.push("vcf".into());
     }
+    // the thread count must not matter (C11 decides that in general; here it varies as part of "any invocation")
+    let threads = [1usize, 2, 3, 1, 4][(c.k / 2 + 3 * m.samples.len() + m.reference.iter().map(|r| r.len()).sum::<usize>() + vcf as usize) % 5];
+    if threads > 1 {
+        args.push("--threads".into());
+        args.push(threads.to_string());
+    }
     // half of the cases write to a file with -o instead of stdout
     let to_file = (c.k / 2 + m.samples.len() + c.ambig_mask as usize) % 2 == 1;
     let out_name = if vcf { "map_out.vcf" } else { "map_out.aln" };
